@@ -17,6 +17,7 @@ func runC14(c *core.Ctx) {
 	h.commitBeforeStructureChange("C14.3 commit-first")
 	c.Clause("C14.4 createSegment: truncate -> zero header -> sync -> close; removed on failure")
 	h.createSegmentProtocol("C14.4 create-segment")
+	h.initialisedFileOnly("C14.4b open-segment")
 	c.Clause("C14.5 openSegments handles every discovered file; in-loop exits only on error")
 	h.openHandlesEveryFile("C14.5 open-segments")
 	c.Clause("C14.6 the walks that flush, close or dispose of the segment chain visit every segment and stop only at the chain's end, a clean segment (CommitN) or an error")
@@ -37,6 +38,7 @@ func runC13(c *core.Ctx) {
 	c.Clause("C13.4 roll-over names the new segment after the last index; open chains only contiguous segments")
 	h.commitBeforeStructureChange("C13.4a roll-over")
 	h.openHandlesEveryFile("C13.4b open-chain")
+	h.rollOverFits("C13.4c roll-over-fits")
 	c.Clause("C13.5 observers: Count, Contains, PrevIndex, LastIndex and segment.lastIndex are the abstract sequence's definitions")
 	h.observers("C13.5 observers")
 	c.Clause("C13.6 Reset/Close/CommitN walk the whole chain; Reset removes every old segment before it creates the new one")
